@@ -143,7 +143,9 @@ func fuzzValue(r *rand.Rand, g *docGen, key string, depth int) any {
 	}
 	switch key {
 	case "type":
-		return pick(r, []string{"Note", "Article", "Page", "Video", "Image", "Audio", "Document", "Person", "Group", "Service", "Create", "Announce", "Like", "Dislike", "Tombstone", "Collection", "OrderedCollection", "Link", "Bogus", ""})
+		return pick(r, []string{"Note", "Article", "Page", "Video", "Image", "Audio", "Document", "Person", "Group", "Service", "Create", "Announce", "Like", "Dislike", "Tombstone", "Collection", "OrderedCollection", "Link", "Bogus", "",
+			/* the rest of the ActivityStreams vocabulary: none of it may reach a code path that only knows four activities */
+			"Update", "Delete", "Follow", "Accept", "Reject", "Add", "Remove", "Undo", "Block", "Flag", "Move", "Question", "Event", "Place", "Application", "Organization", "CollectionPage", "OrderedCollectionPage"})
 	case "content", "summary":
 		switch weighted(r, 4, 2, 2, 2, 1) {
 		case 0:
@@ -154,6 +156,11 @@ func fuzzValue(r *rand.Rand, g *docGen, key string, depth int) any {
 			return g.gemtextDoc()
 		case 3:
 			return g.plainDoc()
+		}
+		if r.Intn(2) == 0 {
+			/* raw control characters where only the parser looks: in tag names and attribute names */
+			c := pick(r, []string{"\x1b]0;pwned\x07", "\x0e", "\u009b2J", "\x7f", "\x1b[7m"})
+			return "<p>a</p><x" + c + ">inside</x" + c + "> <b" + c + ">bold</b> <div" + c + ">d</div> <a hr" + c + "ef=\"https://t.example/1\">l</a>"
 		}
 		d := 8 + r.Intn(14)
 		return strings.Repeat("<blockquote>", d) + "deep <hr> text" + strings.Repeat("</blockquote>", d)
@@ -229,10 +236,20 @@ func genPubFuzz(r *rand.Rand, n int, emit func(Op)) {
 			}
 		case "activity":
 			if r.Intn(4) != 0 {
-				doc["type"] = pick(r, []string{"Create", "Announce", "Like", "Dislike"})
+				doc["type"] = pick(r, []string{"Create", "Announce", "Like", "Dislike", "Update", "Delete", "Follow", "Undo"})
 			}
 		}
 		b, _ := json.Marshal(doc)
+		if _, ok := doc["content"].(string); ok && r.Intn(6) == 0 {
+			/* the same text under every media type, one after the other in one process: what a
+			   body is may not be remembered across documents by its text alone */
+			for _, mt := range []string{"text/html", "text/plain", "text/gemini", "text/markdown", "text/html"} {
+				doc["mediaType"] = mt
+				doc["type"] = "Note"
+				bb, _ := json.Marshal(doc)
+				emit(Op{"op": "pubfuzz", "doc": string(bb), "as": "post", "widths": []any{80, 40}, "numbers": []any{0, 1, 2, 3}, "withid": false})
+			}
+		}
 		widths := []any{genWidth(r), pick(r, []int{-50, -5, -1, 0, 1, 2, 3, 4, 5, 8, 80, 300})}
 		numbers := []any{0, 1, 2, 3, -1, pick(r, []int{5, 10, 1 << 31, -(1 << 40), 9223372036854775807, -9223372036854775808})}
 		emit(Op{"op": "pubfuzz", "doc": string(b), "as": as, "widths": widths, "numbers": numbers, "withid": r.Intn(2) == 0})
